@@ -195,6 +195,42 @@ def decideRec (y x : Rec) : Option Bool :=
   (tally ps (y.round - x.round) y.e.mid 0 y.nssw).2
 def decision (y x : E) : Option Bool := decideRec ps (recOf ps y) (recOf ps x)
 
+/-! ## the same rules with a validator set per round
+
+`psAt r` is the validator set in force at round `r` (the node's `PeerSetCache`).  Which round's set
+each rule consults is what `hashgraph.go` does: `_round` the parent round's, `_witness` the event's
+round's, `DecideFame` the previous round's for strongly-see and the voter's round's for the
+threshold, `DecideRoundReceived` the candidate round's.  With a constant `psAt` these are the
+definitions above (`infoD_const`). -/
+
+def headRecD (psAt : Int → List Nat) (e : E) (isp iop : List Rec) : Rec :=
+  let t := unionRecs isp iop
+  let ancs := e.id :: t.map (fun r => r.e.id)
+  let laP := laMerge (laOf isp) (laOf iop)
+  let ents := entsOf e laP t
+  let pr := parentRound isp iop
+  let r := roundFrom (psAt pr) ents t pr
+  let wit := (psAt r).contains e.creator && Gen.cmpWitness.eval r (rOf isp)
+  let ssw := strongSeen (psAt (r - 1)) ents t (r - 1)
+  let cands := t.filter (fun x => x.wit && decide (x.round < r))
+  let vd := if wit then cands.map (fun x => (x.e.id, voteOn (psAt r) r e.mid ancs ssw x)) else []
+  { e := e, round := r, wit := wit, lamport := lamportFrom isp iop, ancs := ancs, nssw := ssw.length, la := laSet laP ⟨e.creator, e, r⟩,
+    votes := vd.map (fun p => (p.1, p.2.1)),
+    decs := vd.filterMap (fun p => p.2.2.map (fun b => (p.1, b))) }
+
+def infoStepD (psAt : Int → List Nat) (e : E) (isp iop : List Rec) : List Rec :=
+  headRecD psAt e isp iop :: unionRecs isp iop
+
+def infoD (psAt : Int → List Nat) : E → List Rec
+  | .nil => []
+  | .mk i c s o m => infoStepD psAt (.mk i c s o m) (infoD psAt s) (infoD psAt o)
+
+def decideRecD (psAt : Int → List Nat) (y x : Rec) : Option Bool :=
+  if !(y.wit && x.wit && decide (x.round < y.round)) then none else
+  if y.ancs.contains x.e.id then (y.decs.find? (fun p => p.1 == x.e.id)).map (·.2) else
+  if Gen.cmpFirstVoteRound.eval (y.round - x.round) 1 then none else
+  (tally (psAt y.round) (y.round - x.round) y.e.mid 0 y.nssw).2
+
 /-! ## evaluation with sharing -/
 
 structure Node where
@@ -239,6 +275,42 @@ def rrFrom (decided : Int → Bool) (view : List Rec) (e : Rec) (fuel : Nat) (i 
     let seen := fws.filter (fun w => w.ancs.contains e.e.id)
     if Gen.cmpRoundReceivedAll.evalN seen.length fws.length && Gen.cmpRoundReceived.evalN seen.length (sm ps) then some i
     else rrFrom decided view e fuel (i + 1) last
+
+/-! ## dynamic versions of the evaluation and of the view-level functions -/
+
+def buildStepD (psAt : Int → List Nat) (tbl : List (Nat × List Rec)) (nd : Node) : List (Nat × List Rec) :=
+  let isp := lookupInfo tbl nd.sp
+  let iop := lookupInfo tbl nd.op
+  (nd.id, infoStepD psAt (.mk nd.id nd.creator (headE isp) (headE iop) nd.mid) isp iop) :: tbl
+def buildD (psAt : Int → List Nat) (nodes : List Node) : List (Nat × List Rec) := nodes.foldl (buildStepD psAt) []
+
+/-- fame of candidate `x` in a view, as `DecideFame` finds it: the vote loop goes up round by round,
+    so the decision is that of a decider of the lowest round.  With a static validator set all
+    deciders agree (`dag_fame_agreement`) and the choice does not matter; across a validator-set
+    change that is not proved, and the lowest round is what the code takes.  The second component
+    says whether two deciders of that lowest round disagree (the code would then depend on the
+    iteration order of a Go map). -/
+def fameInD (psAt : Int → List Nat) (view : List Rec) (x : Rec) : Option Bool × Bool :=
+  let ds := view.filterMap (fun y => (decideRecD psAt y x).map (fun b => (y.round, b)))
+  match ds with
+  | [] => (none, false)
+  | d :: rest =>
+    let best := rest.foldl (fun acc p => if p.1 < acc.1 then p else acc) d
+    (some best.2, ds.any (fun p => p.1 == best.1 && p.2 != best.2))
+
+def famousOfD (psAt : Int → List Nat) (view : List Rec) (i : Int) : List Rec :=
+  view.filter (fun x => x.wit && x.round == i && (fameInD psAt view x).1 == some true)
+
+def rrFromD (psAt : Int → List Nat) (decided : Int → Bool) (view : List Rec) (e : Rec) (fuel : Nat) (i last : Int) : Option Int :=
+  match fuel with
+  | 0 => none
+  | fuel + 1 =>
+    if i > last then none else
+    if !decided i then none else
+    let fws := famousOfD psAt view i
+    let seen := fws.filter (fun w => w.ancs.contains e.e.id)
+    if Gen.cmpRoundReceivedAll.evalN seen.length fws.length && Gen.cmpRoundReceived.evalN seen.length (sm (psAt i)) then some i
+    else rrFromD psAt decided view e fuel (i + 1) last
 
 end
 end Babble.Dag
